@@ -22,6 +22,10 @@ def evOfName (s : String) : Event :=
   | "before_serialize" => .beforeSerialize
   | "after_serialize" => .afterSerialize
   | "serialize" => .serialize
+  | "method_redirect" => .redirect
+  | "method_redirect_exception" => .redirectException
+  | "wsdl" => .wsdl
+  | "wsdl_exception" => .wsdlException
   | "wsgi_call" => .wsgiCall
   | "wsgi_return" => .wsgiReturn
   | "wsgi_exception" => .wsgiException
@@ -43,6 +47,10 @@ def nameOfEv : Event → String
   | .beforeSerialize => "before_serialize"
   | .afterSerialize => "after_serialize"
   | .serialize => "serialize"
+  | .redirect => "method_redirect"
+  | .redirectException => "method_redirect_exception"
+  | .wsdl => "wsdl"
+  | .wsdlException => "wsdl_exception"
   | .wsgiCall => "wsgi_call"
   | .wsgiReturn => "wsgi_return"
   | .wsgiException => "wsgi_exception"
@@ -66,6 +74,9 @@ def stageOfName (s : String) : Stage :=
   | "deserialize" => .deserialize
   | "dispatch" => .dispatch
   | "user" => .user
+  | "redirect" => .redirect
+  | "redirectFail" => .redirectFail
+  | "genBody" => .genBody
   | "serialize" => .serialize
   | _ => .none
 
@@ -76,7 +87,8 @@ def outpOfName (s : String) : OutProto :=
 
 def shapeOfName (s : String) : Shape :=
   match s with
-  | "void" => .void | "none" => .none | "generator" => .generator | _ => .value
+  | "void" => .void | "none" => .none | "generator" => .generator | "emptyGenerator" => .emptyGenerator
+  | "ignored" => .ignored | _ => .value
 
 /-- registrations `[[name, h], ...]` with string event names -/
 def regsS (j : Json) (k : String) : List (String × H) :=
@@ -170,6 +182,10 @@ def step (j : Json) : Json :=
     let r := worldRun F c (injOf j) w
     Json.mkObj [("ok", Json.mkObj [("trace", Json.arr ((r.steps.flatMap (expand w)).map obsJson).toArray),
                                     ("escaped", Json.bool r.escaped)])]
+  | "wsdl" =>
+    let w := worldOf (getObj j "world")
+    Json.mkObj [("ok", Json.mkObj [("trace", Json.arr (((if getBool j "fails" then F.wsdlFailSteps else F.wsdlSteps).flatMap (expand w)).map obsJson).toArray),
+                                    ("escaped", Json.bool false)])]
   | "accepts" =>
     let t := (getArr j "t").toList.map fun s => symOfName (s.getStr?.toOption.getD "")
     Json.mkObj [("ok", stateJson (final t))]
